@@ -236,12 +236,36 @@ def r4_float_literals_inverse_of_repr(ctx):
                 branch = node
         if branch is None:
             raise AnalysisError(f"anchor vanished: _read_num branch for {regex}")
-        rets = []
+        rets, dec_rets = [], []
         for s in branch.body:
             for r in ast.walk(s):
-                if isinstance(r, ast.Return) and r.value is not None and "Decimal" not in P.un(r.value):
-                    rets.append(r)
+                if isinstance(r, ast.Return) and r.value is not None:
+                    # the M-suffixed token is a decimal literal: the returns under `if s.endswith("M")`
+                    under_m = any(isinstance(a, ast.If) and "endswith('M')" in P.un(a.test) and any(P.contains(b, r) for b in a.body) for a in P.ancestors(r))
+                    (dec_rets if under_m else rets).append(r)
         rets = [r for r in rets if not any(isinstance(a, ast.ExceptHandler) for a in P.ancestors(r))]
+        dec_rets = [r for r in dec_rets if not any(isinstance(a, ast.ExceptHandler) for a in P.ancestors(r))]
+        # decimals are printed with str(), every digit of them: the literal is converted by the exact
+        # constructor Decimal(<text>) -- directly or through a helper that is nothing but that -- and
+        # never through a decimal *context*, which rounds to the ambient (thread-local) precision
+        for r in dec_rets:
+            v = r.value
+            okd, whyd = False, f"a decimal literal is converted by `{P.un(v)}`, not by the exact constructor decimal.Decimal(<token text>)"
+            if isinstance(v, ast.Call) and len(v.args) == 1 and not v.keywords and not any(isinstance(x, ast.BinOp) for x in ast.walk(v.args[0])):
+                fname = P.un(v.func)
+                if fname in ("decimal.Decimal", "Decimal"):
+                    okd, whyd = True, ""
+                elif fname.startswith("langutil."):
+                    h = P.find_def(ctx.py("src/basilisp/lang/util.py"), fname.split(".", 1)[1])
+                    if h is not None and isinstance(h, P.FUNC) and len(h.args.args) == 1:
+                        hrets = [x.value for x in ast.walk(h) if isinstance(x, ast.Return) and x.value is not None]
+                        exact = bool(hrets) and all(isinstance(x, ast.Call) and P.un(x.func) in ("Decimal", "decimal.Decimal") and len(x.args) == 1 and not x.keywords and P.un(x.args[0]) == h.args.args[0].arg for x in hrets)
+                        if exact:
+                            okd, whyd = True, ""
+                        else:
+                            whyd = f"a decimal literal is converted by `{P.un(v)}`, whose result is `{' | '.join(P.un(x) for x in hrets)}` and not Decimal(<token text>): a conversion through a decimal context rounds to the ambient precision, while the printer writes every digit -- a decimal of more than 28 digits (or any decimal under with-precision) reads back as another value"
+            ctx.ob("C03.R4", f"{RD}::_read_num::{regex} decimal literal -> {P.un(v)}", RD, r.lineno, okd, whyd,
+                   witness="(read-string (pr-str 1.00000000000000000000000000001M)) inside (with-precision 4 ...)")
         good = [r for r in rets if isinstance(r.value, ast.Call) and P.un(r.value.func) == "float" and not any(isinstance(x, (ast.BinOp,)) for x in ast.walk(r.value))]
         ok = bool(rets) and len(good) == len(rets)
         bad = [P.un(r.value) for r in rets if r not in good]
@@ -644,6 +668,10 @@ def r12_namespace_prefix_is_decided_on_every_key(ctx):
 
 
 SELFTEST = [
+    {"name": "twin: decimal literals built through the exact helper of lang/util.py", "file": RD, "expect": None,
+     "old": "                    return decimal.Decimal(match.group(1))\n", "new": "                    return langutil.decimal_from_str(match.group(1))\n"},
+    {"name": "decimal literals converted through the ambient decimal context", "file": RD, "expect": "C03.R4",
+     "old": "                    return decimal.Decimal(match.group(1))\n", "new": "                    return decimal.getcontext().create_decimal(match.group(1))\n"},
     {"name": "namespace scan bounded by *print-length*", "file": MAP, "expect": "C03.R12",
      "old": "        for k, _ in entries():\n            if isinstance(k, INamed):\n                nses.add(k.ns)", "new": "        for k, _ in islice(entries(), kwargs[\"print_length\"] if isinstance(kwargs[\"print_length\"], int) else None):\n            if isinstance(k, INamed):\n                nses.add(k.ns)"},
     {"name": "imaginary literal without exponent (the repaired defect)", "file": RD, "expect": "C03.R11",
